@@ -1,5 +1,6 @@
 // ---- TRUSTED (shared): stand-ins for the `http` crate types that dropshot's error path touches ----
 // http::StatusCode: a u16 newtype; only the numeric code is modelled.
+#[derive(Clone, Copy, PartialEq, Eq)]
 pub struct StatusCode { pub code: u16 }
 pub uninterp spec fn has_canonical_reason(code: u16) -> bool;
 /// dependency facts about http::StatusCode::canonical_reason for the three codes dropshot's own
@@ -16,12 +17,6 @@ impl StatusCode {
     #[verifier::external_body]
     pub fn canonical_reason(&self) -> (r: Option<&'static str>) ensures (r is Some) == has_canonical_reason(self.code) { unimplemented!() }
 }
-impl Clone for StatusCode {
-    #[verifier::external_body]
-    fn clone(&self) -> (r: Self) ensures r == *self { unimplemented!() }
-}
-impl Copy for StatusCode {}
-
 // http::HeaderMap: an ordered multi-map, viewed as the sequence of (name, value) pairs it will emit.
 #[verifier::external_body]
 pub struct HeaderMap { _p: u8 }
